@@ -199,10 +199,18 @@ class Run:
               f"undecided={n_und} configs={self.configs} canaries={self.canaries_ok}/{self.canaries_total} "
               f"wall={wall:.1f}s")
         if self.violations:
+            per_clause = {}
             for v in self.violations:
+                cl = v["obligation"].split("@")[0].split("[")[0]
+                per_clause[cl] = per_clause.get(cl, 0) + 1
+                if per_clause[cl] > 3:
+                    continue       # every refuted obligation has its replay file; print at most 3 per clause
                 suffix = "" if v["confirmed"] else " no-failing-input-found"
-                print(f"  refuted: {v['obligation']}: {v['text']}")
+                print(f"  refuted: {v['obligation'][:300]}")
                 print(f"VIOLATION property={self.prop_id} replay={v['replay']}{suffix}")
+            for cl, n in per_clause.items():
+                if n > 3:
+                    print(f"  ... clause {cl}: {n} refuted obligations in total (replay files under replays/{self.prop_id}/)")
             return EXIT_VIOLATION
         if self.engine_faults:
             for e in self.engine_faults:
